@@ -42,8 +42,29 @@ def screen(m, meta):
             problems.append("the image that disappeared was not deleted")
         if scr._ti_image_cviews:
             problems.append("stale image views kept")
-    # draw_screen brackets
-    return {"reproduced": bool(problems), "input": "Pile(Text, Filler(UrwidImage(KittyImage))) drawn, then SolidFill drawn", "observed": problems}
+    # clear_images(): whatever the arguments, every image it deletes from the terminal is forced to be drawn again (the trailing
+    # "disguise" of its canvas lines changes, so urwid's line cache cannot skip them)
+    from term_image.widget import UrwidImageCanvas
+    import term_image.widget._urwid as UW
+    UW.write_tty = lambda data: out.append(("write", data.decode()))       # what `now=True` uses instead of the screen's buffer
+    for now in (False, True):
+        for targets in ((), (widget,)):
+            n0 = len(out)
+            before = (UrwidImageCanvas._ti_disguise_state, widget._ti_disguise_state)
+            scr._ti_screen_canv = canv1
+            line_before = [b"".join(seg[2] for seg in row) for row in layout.render((30, 12)).content()]
+            scr.clear_images(*targets, now=now)
+            after = (UrwidImageCanvas._ti_disguise_state, widget._ti_disguise_state)
+            layout._invalidate(); widget._invalidate()
+            line_after = [b"".join(seg[2] for seg in row) for row in layout.render((30, 12)).content()]
+            img_rows = [i for i, l in enumerate(line_before) if b"\x1b_G" in l]
+            if after == before or any(line_before[i] == line_after[i] for i in img_rows):
+                problems.append(f"clear_images({'widget' if targets else ''}{', ' if targets else ''}now={now}) deleted images but their canvas lines are "
+                                f"byte-identical afterwards (disguise {before} -> {after}): the redraw will skip them")
+            sent_now = any(k == "write" for k, *r in out[n0:])
+            if now and not sent_now:
+                problems.append(f"clear_images(now=True) wrote nothing")
+    return {"reproduced": bool(problems), "input": "Pile(Text, Filler(UrwidImage(KittyImage))) drawn, then SolidFill drawn; clear_images in its four forms", "observed": problems}
 
 
 def overlay(m, meta):
